@@ -199,7 +199,7 @@ def run_entry_points(data, which=(0, 1, 2)):
 @bounded("single-faults-and-truncation", props=["C13"],
          bound="three feature-covering seed documents (classic table + inherited attributes + simple font/Differences + outlines + labels + PNG-predictor image + form; "
                "xref stream + object streams + Type0/ToUnicode/W + inline image + ICC colour space; one image per filter LZW/RunLength/ASCIIHex/ASCII85/LZW+TIFF predictor + "
-               "filter chain with indirect Length). quick: 1400 seeded single faults out of all (site x {14 replacement values, remove}) and stream-payload faults "
+               "filter chain with indirect Length). quick: every self-reference and reference-cycle fault plus 1000 seeded single faults out of all (site x {14 replacement values, remove}) and stream-payload faults "
                "(truncate, corrupt, empty) + truncation at a stride of 1/120 of the file and at every byte around each structural keyword; thorough: every fault and every truncation point. Entry points extract_text, extract_pages, "
                "extract_text_to_fp(xml); 'work bounded' is observed only as a 10 s alarm (documents are < 5 kB)")
 def _(tier, seed):
@@ -234,8 +234,11 @@ def _(tier, seed):
                 cuts.update(range(max(0, m_.start() - 1), min(len(base), m_.end() + 3)))
         trunc.extend((nm, None, None, "truncate-file", cut, None) for cut in sorted(cuts))
     if tier == "quick":
-        rng.shuffle(cases)
-        cases = cases[:1400]
+        # every reference fault (self, cycle: the ones that can hang or exhaust the stack) plus a seeded sample of the others
+        always = [c_ for c_ in cases if c_[4] in ("self-ref", "cycle-ref")]
+        rest = [c_ for c_ in cases if c_[4] not in ("self-ref", "cycle-ref")]
+        rng.shuffle(rest)
+        cases = always + rest[:1000]
     cases += trunc
     for nm, num, path, kind, vn, v in cases:
         m = models[nm]
